@@ -24,6 +24,9 @@ type FG struct {
 	defers  []int
 	rundef  []int
 	corr    []ssa.Value // boolean SSA values tested by more than one If (see corr.go)
+	inl     map[int]bool // call nodes whose callee's body is spliced in behind them (see inline.go)
+	psub    map[*ssa.Parameter]ssa.Value
+	csub    map[*ssa.Call][]ssa.Value
 }
 
 type Edge struct{ from, to int }
@@ -412,6 +415,9 @@ func (w *World) nodesD(g *FG, ev Ev, must bool, depth int) []bool {
 				}
 			}
 		default:
+			if g.inl[n] {
+				continue // the callee's own instructions follow in this graph
+			}
 			if does(in) {
 				out[n] = true
 			}
@@ -443,6 +449,7 @@ func (w *World) recoverEdges(g *FG) []Edge {
 // deferDoes decides whether a deferred call performs ev when it runs at a NORMAL exit:
 // the part of a deferred closure guarded by recover() != nil runs on panic exits only.
 func (w *World) deferDoes(d *ssa.Defer, ev Ev, must bool, depth int, does func(ssa.Instruction) bool) bool {
+	defer w.noCtx()()
 	f := deferredFn(d)
 	if f == nil || f.Blocks == nil {
 		return does(d)
@@ -479,6 +486,7 @@ func (w *World) deferDoes(d *ssa.Defer, ev Ev, must bool, depth int, does func(s
 }
 
 func (w *World) mustDo(fn *ssa.Function, ev Ev, depth int) bool {
+	defer w.noCtx()()
 	if fn == nil || fn.Blocks == nil {
 		return false
 	}
@@ -494,6 +502,7 @@ func (w *World) mustDo(fn *ssa.Function, ev Ev, depth int) bool {
 }
 
 func (w *World) mayDo(fn *ssa.Function, ev Ev, depth int) bool {
+	defer w.noCtx()()
 	if fn == nil || fn.Blocks == nil {
 		return false
 	}
